@@ -281,6 +281,14 @@ class C06(Property):
     xlen = None if W.chance("x-endless", 1, 4) else W.choose("xlen", 11)
     if xlen is None and all(v is None for v in lens.values()):
       xlen = W.choose("xlen", 11)
+    if shape == "single" and W.chance("long-lag", 1, 25):
+      # sparse high delays: every numerator term delayed by more than 32
+      # samples, and a run long enough to get past that delay
+      lag = W.span("lag", 33, 44)
+      tree["num"] = [[k + lag, c] for k, c in tree["num"]]
+      lens = dict((k, None if v is None or W.chance("ll-endless", 1, 2)
+                   else lag + 2 + v) for k, v in lens.items())
+      xlen = lag + 3 + W.choose("ll-x", 9)
     return {"tree": tree, "lens": lens, "xlen": xlen,
             "cstream": W.choose("cstream", 4),
             # hashing a filter (set member, dict key) before it is called
@@ -289,7 +297,13 @@ class C06(Property):
             # anything from a coefficient stream
             "inspect_first": [nm for nm in INSPECT
                               if W.chance("inspect", 1, 8)],
-            "memory": shape == "zeronum" or W.chance("memory", 1, 4)}
+            "memory": shape == "zeronum" or W.chance("memory", 1, 4),
+            # clause (6): a second filter derived from this one (3*f, -f)
+            # while both read their coefficient streams through 2-use hubs;
+            # both are called, in this order / interleaved
+            "sibling": [W.pick("sib", ["scale3", "neg", "rscale3"]),
+                        W.pick("sibord", ["g-f", "f-g", "mixed"])]
+            if W.chance("sibling", 1, 2) else None}
 
   def shrink_candidates(self, wl):
     t = wl["tree"]
@@ -419,7 +433,25 @@ class C06(Property):
     return 4
 
   # ------------------------------------------------------------ construction
-  def build(self, tree, sources, cstream=0, const_as_stream=False):
+  @staticmethod
+  def hubbed_tree(t):
+    """ The same single filter with every stream coefficient read through a
+    shared hub; None when a coefficient cannot be shared that way. """
+    out = dict(t)
+    for part in ("num", "den"):
+      lst = []
+      for k, c in t[part]:
+        if c[0] in ("s", "h"):
+          lst.append([k, ["h", c[1]]])
+        elif c[0] == "c":
+          lst.append([k, list(c)])
+        else:
+          return None
+      out[part] = lst
+    return out
+
+  def build(self, tree, sources, cstream=0, const_as_stream=False,
+            hub_factor=1):
     """ Returns the real filter for ``tree`` over the given SimSources. """
     Stream, z, ZFilter = self.ls.Stream, self.lf.z, self.lf.ZFilter
     if not hasattr(self, "protos"):
@@ -450,7 +482,8 @@ class C06(Property):
           return sources[c[1]]           # a bare iterator, not a Stream
       if c[0] == "h":
         if c[1] not in hubs:
-          hubs[c[1]] = self.ls.thub(Stream(sources[c[1]]), uses[c[1]])
+          hubs[c[1]] = self.ls.thub(Stream(sources[c[1]]),
+                                    uses[c[1]] * hub_factor)
         return hubs[c[1]]
       if c[0] == "s":
         return Stream(sources[c[1]])
@@ -993,6 +1026,53 @@ class C06(Property):
                         "streams: output %r, with constants %r"
                         % (got, ys[:ncheck]))
       res.counters["probe.constant-as-stream"] += 1
+
+    # ---- (6) a derived sibling: g = 3*f or -f, coefficients through 2-use
+    # hubs, BOTH filters called.  Scaling / negation acts on the coefficient
+    # sequences element by element, so g's output is 3*y resp. -y, and
+    # calling one of the two must not disturb the other.
+    sib = wl.get("sibling")
+    if sib and tree["op"] == "single" and memory is None and ncheck and \
+       tree["route"] in ("lists", "dicts"):
+      # (only the routes in which the filter holds the hub objects
+      # themselves: an expression such as hub * z**-1 already spends a use
+      # and leaves a plain Stream, which two filters may not share)
+      ht = self.hubbed_tree(tree)
+      if ht is not None and self.tree_sids(ht):
+        srcD = self.make_sources(wl, self.tree_sids(ht))
+        try:
+          fD = self.build(ht, srcD, hub_factor=2)
+          if sib[0] == "scale3":
+            gD, factor = fD * 3, 3
+          elif sib[0] == "rscale3":
+            gD, factor = 3 * fD, 3
+          else:
+            gD, factor = -fD, -1
+          n_out = len(ys)
+          x1 = [x_value(i) for i in range(n_out)]
+          first, second = (gD, fD) if sib[1] != "f-g" else (fD, gD)
+          o1 = iter(first(list(x1), zero=Fraction(0)))
+          if sib[1] == "mixed":
+            o2 = iter(second(list(x1), zero=Fraction(0)))
+            r1, r2 = [], []
+            for _ in range(n_out):
+              r1.append(next(o1))
+              r2.append(next(o2))
+          else:
+            r1 = [next(o1) for _ in range(n_out)]
+            o2 = iter(second(list(x1), zero=Fraction(0)))
+            r2 = [next(o2) for _ in range(n_out)]
+        except Exception as exc:
+          raise _Mismatch("sibling-raised", "f and g = %s(f) sharing their "
+                          "coefficient streams through 2-use hubs, both "
+                          "called (%s): raised %r" % (sib[0], sib[1], exc))
+        rg, rf = (r1, r2) if sib[1] != "f-g" else (r2, r1)
+        if rf != ys[:n_out] or rg != [factor * v for v in ys[:n_out]]:
+          raise _Mismatch("sibling", "f and g = %s(f) sharing their "
+                          "coefficient streams through 2-use hubs (%s): f "
+                          "gave %r (expected %r), g gave %r"
+                          % (sib[0], sib[1], rf, ys[:n_out], rg))
+        res.counters["probe.derived-sibling-both-called"] += 1
 
 
 PROPERTY = C06
